@@ -514,7 +514,7 @@ fn trunc<T: std::fmt::Debug>(t: &T) -> String {
 }
 
 pub fn differential(ctx: &Ctx) -> Report {
-    let n = ctx.n(400, 40_000);
+    let n = ctx.n(1_200, 500_000);
     // every case owns four OS threads and two runtimes: keep the number of concurrent cases moderate
     let mut c2 = ctx.clone();
     c2.threads = ctx.threads.min(6);
